@@ -22,11 +22,12 @@ import (
 type LocKind int
 
 const (
-	LNone   LocKind = iota
-	LObj            // pointer to an object (struct, big.Int, box, array) with ref term S; Path = flattened prefix
-	LField          // pointer to a scalar field: Heap[Base]
-	LElem           // pointer to a slice/array element: Heap[Base][Idx]
-	LGlobal         // pointer to a package-level scalar variable: Heap (scalar var)
+	LNone    LocKind = iota
+	LObj             // pointer to an object (struct, big.Int, box, array) with ref term S; Path = flattened prefix
+	LField           // pointer to a scalar field: Heap[Base]
+	LElem            // pointer to a slice/array element: Heap[Base][Idx]
+	LGlobal          // pointer to a package-level scalar variable: Heap (scalar var)
+	LElemObj         // pointer to a struct-typed slice element: fields live in EF:<type><path>[Base][Idx]
 )
 
 type Loc struct {
@@ -134,6 +135,9 @@ type FnCtx struct {
 	pendingClosed [][2]string
 	closedDecls   []string
 	cands         []string
+	frames        map[string]frameInfo
+	parents       map[string][]string
+	noted         map[string]bool
 	candSet       map[string]bool
 	pendingVals   []Val
 	pendingRows   [][2]string
@@ -196,6 +200,15 @@ func (fc *FnCtx) addCand(t string) {
 	}
 	fc.candSet[t] = true
 	fc.cands = append(fc.cands, t)
+}
+
+// permFact asserts a definitional / ground fact that holds independently of the program point
+// (it survives the roll-back of loop dry runs)
+func (fc *FnCtx) permFact(term string) {
+	if term == "true" {
+		return
+	}
+	fc.decls = append(fc.decls, "(assert "+term+")")
 }
 
 func (fc *FnCtx) unsupported(format string, args ...interface{}) {
@@ -527,6 +540,48 @@ func (fc *FnCtx) regVar(name, sort string) {
 	fc.varSort[name] = sort
 }
 
+type frameInfo struct {
+	pre   string
+	alloc string
+	exc   []string
+}
+
+var reBoundVar = regexp.MustCompile(`qv\d+x_`)
+
+// noteRead emits, for a read of heap version 'term' at 'row', the ground instances of the frame axioms of every
+// havocked version this one was derived from.
+func (fc *FnCtx) noteRead(term, row string) {
+	if fc.noted == nil {
+		fc.noted = map[string]bool{}
+	}
+	if reBoundVar.MatchString(row) {
+		return
+	}
+	key := term + "@" + row
+	if fc.noted[key] {
+		return
+	}
+	fc.noted[key] = true
+	if info, ok := fc.frames[term]; ok {
+		conds := []string{sApp("isold", row, info.alloc)}
+		for _, e := range info.exc {
+			conds = append(conds, sNot(sEq(row, e)))
+		}
+		fc.permFact(sImp(sAnd(conds...), sEq(sSel(term, row), sSel(info.pre, row))))
+		fc.noteRead(info.pre, row)
+	}
+	for _, p := range fc.parents[term] {
+		fc.noteRead(p, row)
+	}
+}
+
+// rd reads row 'row' of heap variable 'name' in state st
+func (fc *FnCtx) rd(st *State, name, row string) string {
+	t := fc.get(st, name)
+	fc.noteRead(t, row)
+	return sSel(t, row)
+}
+
 // get current term of heap var
 func (fc *FnCtx) get(st *State, name string) string {
 	if t, ok := st.vars[name]; ok {
@@ -549,6 +604,12 @@ func (fc *FnCtx) set(st *State, name, term string) {
 // define a new version equal to term (keeps terms small)
 func (fc *FnCtx) setDef(st *State, guard, name, term string) {
 	c := fc.freshConst(name, fc.sortOfVar(name))
+	if cur, ok := st.vars[name]; ok {
+		if fc.parents == nil {
+			fc.parents = map[string][]string{}
+		}
+		fc.parents[c] = append(fc.parents[c], cur)
+	}
 	fc.addFact("true", sEq(c, term))
 	st.vars[name] = c
 }
@@ -800,7 +861,7 @@ func (fr *Frame) typeFacts(v Val, st *State) string {
 	switch u := t.Underlying().(type) {
 	case *types.Pointer, *types.Map, *types.Chan:
 		_ = u
-		return sAnd(sApp("<=", v.S, fr.fc.get(st, hAlloc)))
+		return sOr(sEq(v.S, "0"), sApp("isold", v.S, fr.fc.get(st, hAlloc)))
 	case *types.Slice:
 		return sAnd(sApp("slwf", v.S), sApp("<=", sApp("sl_arr", v.S), fr.fc.get(st, hAlloc)))
 	case *types.Interface:
